@@ -265,7 +265,9 @@ def coq_bytes(b):
     flush()
     if not parts:
         return "[]"
-    return "(" + " ++ ".join(parts) + ")%list" if len(parts) > 1 else parts[0]
+    if len(parts) == 1:
+        return parts[0] if parts[0].startswith("[") else "(" + parts[0] + ")"
+    return "(" + " ++ ".join(parts) + ")%list"
 
 
 def chunks(xs, n):
